@@ -272,11 +272,19 @@ def pred(req, snap, exc):
                 return fails                      # format sniffing of add_edges_from on mixed str / non-str labels
             return [("raised", f"{type(exc).__name__}: {exc}")]
         if f == "lch" and not nodes:
-            return fails                          # no component to speak of
+            return fails                          # the null network has no component: raising or returning it are both fine
         if f in ("relabel", "cleanup") and req["in_place"] and req["H"].get("frozen"):
             return fails if o == "err:lib" else [("wrong-error", o)]
         if f == "cleanup":
-            return [("raised", f"cleanup({ {k: req[k] for k in FLAGS} }) raised {type(exc).__name__}: {exc}")]
+            fl = {k: req[k] for k in FLAGS}
+            exp = expected_cleanup(fl, nodes, mem, eo)
+            if exp is None:
+                # a class of repeated edges whose IDs Python cannot sort (merge_duplicate_edges takes the smallest)
+                return fails if o == "err:type" else [("wrong-error", o)]
+            if exp[2] and o == "err:value":
+                return [("raises-on-null-network", f"cleanup({fl}) raised {type(exc).__name__}: {exc} — nothing is left "
+                         "when the connected step runs")]
+            return [("raised", f"cleanup({fl}) raised {type(exc).__name__}: {exc}")]
         return [("raised", f"{f} raised {type(exc).__name__}: {exc}")]
 
     rn, rmem, reo, rnattr, reattr, rnet = _res(snap)
@@ -367,14 +375,15 @@ def pred(req, snap, exc):
 
     elif f == "lch":
         comps = components(nodes, mem)
-        big = max(len(c) for c in comps)
-        first = next(c for c in comps if len(c) == big)
-        if set(rn) not in [set(c) for c in comps]:
-            bad("not-a-component", f"{rn} vs {comps}")
-        elif len(rn) != big:
-            bad("not-largest", f"{rn} vs {comps}")
-        elif set(rn) != set(first):
-            bad("not-first-largest", f"{rn} vs {comps}")
+        if comps:
+            big = max(len(c) for c in comps)
+            first = next(c for c in comps if len(c) == big)
+            if set(rn) not in [set(c) for c in comps]:
+                bad("not-a-component", f"{rn} vs {comps}")
+            elif len(rn) != big:
+                bad("not-largest", f"{rn} vs {comps}")
+            elif set(rn) != set(first):
+                bad("not-first-largest", f"{rn} vs {comps}")
         want_n = [n for n in nodes if n in set(rn)]
         want_e = [e for e in eo if mem[e] <= set(rn)]
         same_on("nodes", rn, want_n); same_on("edges", reo, want_e)
@@ -419,6 +428,38 @@ def first_maximal_is_string_first(enc):
     return False
 
 
+def expected_cleanup(fl, nodes, mem, eo):
+    """the network the definition asks for, by brute force: (nodes kept, edges kept, nothing left at the connected
+    step); None when a class of repeated edges has IDs that Python's sorted cannot order"""
+    keep = list(eo)
+    if not fl["multiedges"]:
+        classes = {}
+        for e in eo:
+            classes.setdefault(mem[e], []).append(e)
+        rep = {}
+        for ms, ids in classes.items():
+            try:
+                rep[ms] = sorted(ids)[0] if len(ids) > 1 else ids[0]
+            except TypeError:
+                return None
+        keep = [e for e in eo if rep[mem[e]] == e]
+    if not fl["singletons"]:
+        keep = [e for e in keep if len(mem[e]) != 1]
+    kn = list(nodes)
+    if not fl["isolates"]:
+        kn = [n for n in kn if any(n in mem[e] for e in keep)]
+    null = False
+    if fl["connected"]:
+        comps = components(kn, {e: mem[e] for e in keep})
+        null = not comps
+        if comps:
+            big = max(len(c) for c in comps)
+            first = next(c for c in comps if len(c) == big)
+            kn = [n for n in kn if n in set(first)]
+            keep = [e for e in keep if mem[e] <= set(first)]        # (empty edges stay: they exclude nothing)
+    return kn, keep, null
+
+
 def cleanup_pred(req, nodes, mem, eo, ne, ee, net, rn, rmem, reo, rne, ree, rnet):
     """the guarantees, 'only by deleting or merging', and the exact expected network by brute force"""
     fails = []
@@ -459,30 +500,10 @@ def cleanup_pred(req, nodes, mem, eo, ne, ee, net, rn, rmem, reo, rne, ree, rnet
         bad("edge-not-original", f"{oe}")
         return fails
     # --- brute-force expected network (sets), independent of the library
-    keep = list(eo)
-    if not fl["multiedges"]:
-        classes = {}
-        for e in eo:
-            classes.setdefault(mem[e], []).append(e)
-        rep = {}
-        for ms, ids in classes.items():
-            try:
-                rep[ms] = sorted(ids)[0] if len(ids) > 1 else ids[0]
-            except TypeError:
-                return fails            # IDs of a duplicate class not mutually orderable: Python's sorted raises
-        keep = [e for e in eo if rep[mem[e]] == e]
-    if not fl["singletons"]:
-        keep = [e for e in keep if len(mem[e]) != 1]
-    kn = list(nodes)
-    if not fl["isolates"]:
-        kn = [n for n in kn if any(n in mem[e] for e in keep)]
-    if fl["connected"]:
-        comps = components(kn, {e: mem[e] for e in keep})
-        if comps:
-            big = max(len(c) for c in comps)
-            first = next(c for c in comps if len(c) == big)
-            kn = [n for n in kn if n in set(first)]
-            keep = [e for e in keep if mem[e] <= set(first)]        # (empty edges stay: they exclude nothing)
+    exp = expected_cleanup(fl, nodes, mem, eo)
+    if exp is None:
+        return fails
+    kn, keep, _ = exp
     if sorted(map(repr, (on[n] for n in rn))) != sorted(map(repr, kn)):
         bad("nodes-differ-from-definition", f"got {[on[n] for n in rn]} want {kn}")
     if sorted(map(repr, (oe[e] for e in reo))) != sorted(map(repr, keep)):
@@ -543,8 +564,9 @@ def gen_case(rng, f=None, small=False):
         lab = rng.choice(fn.LABELS)
         req["H2"] = gen_net(rng, "hg", max_nodes=mx, max_edges=mx, labels=lab if rng.random() < 0.7 else None)
         if rng.random() < 0.5:      # same label universe: overlapping nodes and overlapping edge IDs
-            req["H2"] = gen_net(rng, "hg", max_nodes=mx, max_edges=mx, labels=lambda k: (nodes + [77, "q"])[:k] if len(nodes) >= 1 else [1][:k],
-                                edge_ids=lambda m: (eids + list(range(50, 60)))[:m])
+            pool = [dec_id(n) for n in nodes] + [77, "q", 78, "r", 79, "s"]
+            epool = [dec_id(e) for e in eids] + list(range(50, 60))
+            req["H2"] = gen_net(rng, "hg", max_nodes=mx, max_edges=mx, labels=lambda k: pool[:k], edge_ids=lambda m: epool[:m])
     elif f in ("cut_to_order", "k_skeleton"):
         req["order"] = rng.randint(-1, 4)
     elif f == "relabel":
@@ -696,6 +718,9 @@ def correspond(ctx, done, results):
             continue
         ctx.traces += 1
         mo = norm(r["f"], canon(m))
+        if r["f"] == "lch" and not r["H"]["nodes"] and im["out"] == "err:value":
+            ctx.stats["lch-null-network-raises"] += 1      # accepted either way (see assumptions)
+            continue
         if mo != im:
             if fails:
                 # the implementation violates the definition on this input: already reported as concrete
